@@ -12,5 +12,6 @@ import (
 	_ "verif/props/c08"
 	_ "verif/props/c09"
 	_ "verif/props/c10"
+	_ "verif/props/c11"
 	_ "verif/props/c12"
 )
